@@ -20,6 +20,7 @@ func (x *vc) value(fr *frame, st *state, v ssa.Value) Val {
 	case *ssa.Const:
 		return x.constVal(c)
 	case *ssa.Global:
+		x.globalTable(fr, st, c)
 		return Val{T: x.globalRef(c), Typ: c.Type()}
 	case *ssa.Function:
 		return Val{T: smtInt(int64(x.srt.typeID(types.NewNamed(types.NewTypeName(0, nil, "fn:"+c.String(), nil), types.Typ[types.Int], nil)))), Typ: c.Type(), Fn: c}
@@ -112,6 +113,32 @@ func (x *vc) globalRef(g *ssa.Global) string {
 	return n
 }
 
+// globalTable: if g is an immutable table with a constant initialiser, pin the content of its cell
+func (x *vc) globalTable(fr *frame, st *state, g *ssa.Global) {
+	if x.tablesDone == nil {
+		x.tablesDone = map[*ssa.Global]bool{}
+	}
+	if x.tablesDone[g] {
+		return
+	}
+	x.tablesDone[g] = true
+	et := g.Type().Underlying().(*types.Pointer).Elem()
+	if isStructObj(et) {
+		return
+	}
+	gv, ok := x.globalValue(fr, st, g)
+	if !ok {
+		return
+	}
+	name, _ := x.cellArr(st, et)
+	ref := x.globalRef(g)
+	x.tableRefs = append(x.tableRefs, tableRef{name, ref, gv.T})
+	x.assume("true", eq(app("select", x.heap0[name], ref), gv.T))
+	if st.heap[name] != x.heap0[name] {
+		x.assume("true", eq(app("select", st.heap[name], ref), gv.T))
+	}
+}
+
 const maxGlobals = 1000
 
 // execBlock executes the instructions of block b; returns true if control does not fall out
@@ -194,16 +221,16 @@ func (x *vc) backEdges(fr *frame, st *state, b *ssa.BasicBlock) {
 		if fr.fc != nil {
 			for i, inv := range fr.fc.invs[li.ordinal] {
 				g := x.evalBool(env, inv.expr)
-				x.oblige(est, "inv-step", fmt.Sprintf("loop%d.%d", li.ordinal, i), g, pos, "loop invariant preserved: "+inv.text, false)
+				x.oblige(est, "inv-step", fmt.Sprintf("%sloop%d.%d", x.framePrefix(fr), li.ordinal, i), g, pos, "loop invariant preserved: "+inv.text, false)
 			}
 			if d := fr.fc.decr[li.ordinal]; d != nil {
 				v := x.evalInt(env, d.expr)
-				x.oblige(est, "variant", fmt.Sprintf("loop%d", li.ordinal), and(app("<", v, li.variant0), app("<=", "0", li.variant0)), pos, "loop variant decreases and is bounded: "+d.text, false)
+				x.oblige(est, "variant", fmt.Sprintf("%sloop%d", x.framePrefix(fr), li.ordinal), and(app("<", v, li.variant0), app("<=", "0", li.variant0)), pos, "loop variant decreases and is bounded: "+d.text, false)
 			}
 		}
 		for _, a := range x.autoInvariants(fr, li) {
 			g := a.holds(fr.vals[a.phi].T)
-			x.oblige(est, "inv-step", fmt.Sprintf("loop%d.auto", li.ordinal), g, pos, "inferred counter bound preserved", true)
+			x.oblige(est, "inv-step", fmt.Sprintf("%sloop%d.auto", x.framePrefix(fr), li.ordinal), g, pos, "inferred counter bound preserved", true)
 		}
 		for phi, v := range saved {
 			fr.vals[phi] = v
@@ -458,9 +485,16 @@ func (x *vc) nilCheck(st *state, p Val, pos string) {
 	if p.LV != nil {
 		return
 	}
-	if strings.HasPrefix(p.T, "alloc_") || strings.HasPrefix(p.T, "G_") {
+	if strings.HasPrefix(p.T, "alloc_") || strings.HasPrefix(p.T, "G_") || strings.HasPrefix(p.T, "tmpobj") {
 		return
 	}
+	if x.nonNil == nil {
+		x.nonNil = map[string]bool{}
+	}
+	if x.nonNil[p.T+"|"+st.guard] || x.nonNil[p.T+"|true"] {
+		return
+	}
+	x.nonNil[p.T+"|"+st.guard] = true
 	x.check(st, "nil", "", not(eq(p.T, "0")), pos, "nil pointer dereference")
 }
 
@@ -713,12 +747,6 @@ func (x *vc) strEq(a, b Val) string {
 }
 
 func (x *vc) ifaceEq(a, b Val) string {
-	if a.T == "(mkiface 0 0)" {
-		return eq(app("itag", b.T), "0")
-	}
-	if b.T == "(mkiface 0 0)" {
-		return eq(app("itag", a.T), "0")
-	}
 	return eq(a.T, b.T)
 }
 
